@@ -199,9 +199,6 @@ def generate_total(sel: List[int]) -> bool:
         mk_function(api, c, "g", params=[self_param()], results=[("result_1", INT)])
     try:
         generate(api, convert)
-    except IndexError:
-        note("oracle")
-        return judge(["exc:IndexError:reference-without-module-part"])
     except LookupError:
         note("oracle")
         return judge(["exc:LookupError:private-superclass-of-another-library"])
